@@ -216,6 +216,26 @@ theorem negative_binomial_cdf_step (T : BetaShiftSpec) {r : ℝ} (hr : 0 < r) {k
   have e2 : ((k + 1 : ℤ) : ℝ) + 1 = ((k : ℝ) + 1) + 1 := by push_cast; ring
   rw [e2]; exact T.mono_b _ _ _ hr hb hp0 hp1
 
+/-- Binomial sf step: `I_p((k+1)+1, n−(k+1)) ≤ I_p(k+1, n−k)` when `k+1 < n` -/
+theorem binomial_sf_step (T : BetaShiftSpec) {n k : ℤ} (hk : 0 ≤ k) (hkn : k + 1 < n) {p : ℝ}
+    (hp0 : 0 ≤ p) (hp1 : p ≤ 1) :
+    SF.beta_reg (((k + 1 : ℤ) : ℝ) + 1) (((n - (k + 1) : ℤ) : ℝ)) p
+      ≤ SF.beta_reg ((k : ℝ) + 1) (((n - k : ℤ) : ℝ)) p := by
+  have hb : (0 : ℝ) < ((n - (k + 1) : ℤ) : ℝ) := by exact_mod_cast (by omega : 0 < n - (k + 1))
+  have ha : (0 : ℝ) < (k : ℝ) + 1 := by exact_mod_cast (by omega : 0 < k + 1)
+  have e1 : ((n - k : ℤ) : ℝ) = ((n - (k + 1) : ℤ) : ℝ) + 1 := by push_cast; ring
+  have e2 : ((k + 1 : ℤ) : ℝ) + 1 = ((k : ℝ) + 1) + 1 := by push_cast; ring
+  rw [e1, e2]
+  exact (T.anti_a _ _ _ ha hb hp0 hp1).trans (T.mono_b _ _ _ ha hb hp0 hp1)
+
+/-- NegativeBinomial sf step: `I_q((k+1)+1, r) ≤ I_q(k+1, r)` -/
+theorem negative_binomial_sf_step (T : BetaShiftSpec) {r : ℝ} (hr : 0 < r) {k : ℤ} (hk : 0 ≤ k)
+    {q : ℝ} (hq0 : 0 ≤ q) (hq1 : q ≤ 1) :
+    SF.beta_reg (((k + 1 : ℤ) : ℝ) + 1) r q ≤ SF.beta_reg ((k : ℝ) + 1) r q := by
+  have ha : (0 : ℝ) < (k : ℝ) + 1 := by exact_mod_cast (by omega : 0 < k + 1)
+  have e2 : ((k + 1 : ℤ) : ℝ) + 1 = ((k : ℝ) + 1) + 1 := by push_cast; ring
+  rw [e2]; exact T.anti_a _ _ _ ha hr hq0 hq1
+
 /-- Poisson sf step: `P((k+1)+1, λ) ≤ P(k+1, λ)` -/
 theorem poisson_lr_step (T : GammaShiftSpec) {k : ℤ} (hk : 0 ≤ k) {l : ℝ} (hl : 0 < l) :
     SF.gamma_lr (((k + 1 : ℤ) : ℝ) + 1) l ≤ SF.gamma_lr ((k : ℝ) + 1) l := by
